@@ -793,6 +793,51 @@ func c16Seqs() []c16Seq {
 			}
 			return m, ks, vs, false, true
 		}, true, 8},
+		// the types templates and hosts build most often: the hash type itself and the array of values
+		{"map[string]Value", func(n int) (stick.Value, []stick.Value, []stick.Value, bool, bool) {
+			m := map[string]stick.Value{}
+			var ks, vs []stick.Value
+			for i := 0; i < n; i++ {
+				var val stick.Value = "v" + itoa(i)
+				if i%3 == 1 {
+					val = i * 11
+				}
+				m["k"+itoa(i)] = val
+				ks = append(ks, "k"+itoa(i))
+				vs = append(vs, val)
+			}
+			return m, ks, vs, false, true
+		}, true, 8},
+		{"map[string]Value whose values are numeric strings and keys digits", func(n int) (stick.Value, []stick.Value, []stick.Value, bool, bool) {
+			m := map[string]stick.Value{}
+			var ks, vs []stick.Value
+			for i := 0; i < n; i++ {
+				m[itoa(i)] = itoa(100 + i)
+				ks = append(ks, itoa(i))
+				vs = append(vs, itoa(100+i))
+			}
+			return m, ks, vs, false, true
+		}, true, 8},
+		{"map[string]string", func(n int) (stick.Value, []stick.Value, []stick.Value, bool, bool) {
+			m := map[string]string{}
+			var ks, vs []stick.Value
+			for i := 0; i < n; i++ {
+				m["k"+itoa(i)] = "v" + itoa(i)
+				ks = append(ks, "k"+itoa(i))
+				vs = append(vs, "v"+itoa(i))
+			}
+			return m, ks, vs, false, true
+		}, true, 8},
+		{"map[string]interface{}", func(n int) (stick.Value, []stick.Value, []stick.Value, bool, bool) {
+			m := map[string]interface{}{}
+			var ks, vs []stick.Value
+			for i := 0; i < n; i++ {
+				m["k"+itoa(i)] = float64(i) + 0.5
+				ks = append(ks, "k"+itoa(i))
+				vs = append(vs, float64(i)+0.5)
+			}
+			return m, ks, vs, false, true
+		}, true, 8},
 	}
 }
 
@@ -972,6 +1017,36 @@ func c16Iter(si, n, brk, mode int) core.Result {
 		ok, cerr := stick.Contains(v, "absent-element")
 		if cerr != nil || ok {
 			return core.Violation("contains", fmt.Sprintf("Contains(%s, absent) = %v, %v", desc, ok, cerr))
+		}
+		// ... and so do the template operators 'in' / 'not in': for every element, every key and an absent value as the
+		// needle they give what Contains gives (core and twig environments)
+		needles := append(append([]stick.Value{}, vals...), "absent-element")
+		for _, k := range keys {
+			needles = append(needles, k)
+		}
+		want := ""
+		for _, nd := range needles {
+			ok, cerr := stick.Contains(v, nd)
+			if cerr != nil {
+				want = ""
+				break
+			}
+			if ok {
+				want += "YN"
+			} else {
+				want += "NY"
+			}
+		}
+		if want != "" {
+			for ei, env := range []*stick.Env{stick.New(nil), twig.New(nil)} {
+				out, err, pan := tryExec(env, "{% for e in needles %}{{ e in v ? 'Y' : 'N' }}{{ e not in v ? 'Y' : 'N' }}{% endfor %}", map[string]stick.Value{"v": v, "needles": needles})
+				if pan != "" || err != nil {
+					return core.Violation("contains", fmt.Sprintf("'e in v' with v = %s (environment %d): %v %s", desc, ei, err, pan))
+				}
+				if out != want {
+					return core.Violation("contains", fmt.Sprintf("'e in v' / 'e not in v' with v = %s over the needles %#v (environment %d) give %q, Contains gives %q", desc, needles, ei, out, want))
+				}
+			}
 		}
 	}
 	var ks []string
